@@ -459,13 +459,23 @@ func (w *world) Apply(x seqx.Op) *core.Violation {
 			ctx, cancel := context.WithTimeout(context.Background(), 5*time.Second)
 			defer cancel()
 			if _, err := wc.NewConnection(ctx, []byte(sig.OfferSDP("av"))); err != nil {
-				fault = "WHIP connection: " + err.Error()
+				// the session's PeerConnection waits for pion's candidate
+				// gathering (real time): a failure there is the
+				// environment's, never a verdict -- the session goes away
+				clientPCFailures++
+				wc.Close()
+				w.whip = nil
+				w.endStream(whipID)
+				w.pubIn = ""
 			}
 		})
 		if fault != "" {
 			return &core.Violation{Signature: "HARNESS-FAULT", What: fault}
 		}
 	case "whip-track":
+		if w.whip == nil {
+			return nil
+		}
 		s := w.streams[whipID]
 		t := trackList[len(s.tracks)]
 		codec := fwd.Opus
@@ -475,6 +485,9 @@ func (w *world) Apply(x seqx.Op) *core.Violation {
 		obs = w.w.Do(func() { rtpconn.VerifWhipTrack(w.whip, t.kind, t.id, "", codec) })
 		s.tracks = append(s.tracks, track{t.id, t.kind.String()})
 	case "whip-close":
+		if w.whip == nil {
+			return nil
+		}
 		w.endStream(whipID)
 		w.pubIn = ""
 		obs = w.w.Do(func() { w.whip.Close() })
